@@ -95,6 +95,9 @@ func ParseWriteMultipleRegistersRequestTCP(data []byte) (*WriteMultipleRegisters
 	if err != nil {
 		return nil, err
 	}
+	if len(data) < 13 {
+		return nil, errTCPRequestTooShort(header, data, FunctionWriteMultipleRegisters)
+	}
 	unitID := data[6]
 	if data[7] != FunctionWriteMultipleRegisters {
 		tmpErr := NewErrorParseTCP(ErrIllegalFunction, "received function code in packet is not 0x10")
